@@ -13,19 +13,19 @@ def pre_build(ctx):
 
 
 HARNESS = "c10"
-N_CASES = {"quick": 1200, "thorough": 40000}
+N_CASES = {"quick": 1050, "thorough": 40000}
 N_SEARCH = {"quick": 1, "thorough": 2}
 SHARD = 375
 RULE = ("generated data files (one zone with one located A record per location and name; 16 names with an exact '8' map each "
         "over the subnet shapes none / only ::/0 / only 0.0.0.0/0 / both / nested, adjacent and split IPv4 / nested and adjacent IPv6 / "
-        "mixed / halves / IPv6 subnets over the v4-mapped block (::/1, ::ffc0:0:0/90: finding F20 on RocksDB) / nested, default-route and sibling subnets that share ONE location (v4 and v6) / random laminar sets; seven maps p1 < p2 < ... in key order of which every second one is assigned to a name but has NO subnet, its neighbours ending with ::/0 or a subnet at the top (ffff::/16) or bottom (::/8, ::/96, 0.0.0.0/8) of the address space, and a resolver map without subnets (map isolation); wildcard '8' and 'M' maps, an exact map beating the wildcard, an '8' map without subnets, "
+        "mixed / halves / IPv6 subnets over the v4-mapped block (::/1, ::ffc0:0:0/90: finding F20 on RocksDB) / nested, default-route and sibling subnets that share ONE location (v4 and v6) / random laminar sets; seven maps p1 < p2 < ... in key order of which every second one is assigned to a name but has NO subnet, its neighbours ending with ::/0 or a subnet at the top (ffff::/16) or bottom (::/8, ::/96, 0.0.0.0/8) of the address space, and a resolver map without subnets (map isolation); subnets in the unnamed map \\000\\000 (legacy % lines without map id; a catch-all for one family only) with their own A records, names with an 'M' map only and names with no map at all; wildcard '8' and 'M' maps, an exact map beating the wildcard, an '8' map without subnets, "
         "a name without '8' map, without any map, with '8' map only, maps for a name outside the zone; four 'M' map variants incl. single "
         "default routes) compiled by the real compilers to CDB, RocksDB v1 keys and RocksDB v2 keys; per backend a handler without and "
         "one with response cache; queries built as wire bytes (no OPT, OPT without ECS, ECS family 1 / 2 / 0, family 2 with v4-mapped "
         "address at source lengths below and above 96, two ECS options, extra known and unknown options, DO bit, UDP sizes, non-zero "
         "query scope, host bits set, short / full-length / over-long address fields, EDNS version 1..3, malformed ECS that miekg rejects, "
         "names outside every zone), ECS addresses from the critical set of the name's subnets (network, last, last+1, first-1, interior) "
-        "with source lengths len-1 / len / len+1 and the classes 0,1,8,16,23,24,25,31,32 / 0,1,32,47,48,49,56,64,96,120,127,128; plus a systematic pass over the nested shapes (a client inside every declared subnet at source lengths len, len+8, max) and over the subnet-less maps (IPv4 / IPv6 / family 0 / no-OPT clients at the bottom, middle and top of the address space); every "
+        "with source lengths len-1 / len / len+1 and the classes 0,1,8,16,23,24,25,31,32 / 0,1,32,47,48,49,56,64,96,120,127,128; plus a systematic pass over the nested shapes (a client inside every declared subnet at source lengths len, len+8, max) over the names without client-subnet map (ECS inside every unnamed-map subnet at len, len+8, max and outside; resolvers inside and outside) and over the subnet-less maps (IPv4 / IPv6 / family 0 / no-OPT clients at the bottom, middle and top of the address space); every "
         "third query is also sent twice to the caching handler (miss then hit); non-trivial = distinct (class, backend, mode, hit, reply "
         "shape) with an ECS option in the query")
 TRUSTED_BASE = [
@@ -107,8 +107,9 @@ def to_coq(c):
         cbool(c.get("hit", False)),
         cbool(c.get("inzone", False)),
         cid(c["map8"]), cid(c["mapm"]),
-        cnets(nets.get(str(c["map8"]), []) if c["map8"] else []),
-        cnets(nets.get(str(c["mapm"]), []) if c["mapm"] else []),
+        # map id 0 = the unnamed map: its subnets are looked up for names without 8 / M line
+        cnets(nets.get(str(c["map8"]), [])),
+        cnets(nets.get(str(c["mapm"]), [])),
         cbool(q["opt"]), cN(q["ver"]), cbool(q["do"]), cN(q["udp"]),
         clist([cwopt(x) for x in q.get("opts") or []]),
         cN(addr(q["rip"])),
